@@ -30,6 +30,11 @@ func init() {
 		"verifReach":   intrReach,
 		"verifObserve": intrObserve,
 		"verifParam":   intrParam,
+		"verifRaceMonitor": func(fr *frame, a []value) value {
+			on, _ := a[0].(bool)
+			fr.i.race = &raceMon{on: on, acc: map[*value][]raceAccess{}, held: map[*value]bool{}}
+			return nil
+		},
 		"verifIsSym":   func(fr *frame, a []value) value { return containsSym(a[0]) },
 		"verifConcretize": func(fr *frame, a []value) value {
 			return int(fr.i.concreteInt(a[0]))
@@ -82,13 +87,30 @@ func intrChoose(fr *frame, a []value) value {
 	if n == 1 {
 		return 0
 	}
+	// A fresh variable constrained only by v < n: every value 0..n-1 is feasible, so fork
+	// directly (no solver enumeration).  The chosen value is pinned in the path condition so
+	// that the model (and hence the native replay) carries it.
 	v := in.freshVar(name, 32)
 	c := in.ctx
-	lt := c.Cmp(OpULt, v, c.Const(32, uint64(n)))
-	if !in.assume(lt) {
-		panic(pathEnd{"infeasible", "choose"})
+	var k int
+	in.noteWhy("choose:" + name)
+	if in.pos < len(in.log) {
+		k = int(in.log[in.pos])
+		in.pos++
+	} else {
+		if in.inMerge > 0 {
+			panic(mergeAbort{"choose in arm"})
+		}
+		base := append([]int64(nil), in.log...)
+		for j := int(n) - 1; j >= 1; j-- {
+			in.pushWork(append(append([]int64(nil), base...), int64(j)))
+		}
+		in.log = append(in.log, 0)
+		in.pos++
+		k = 0
 	}
-	return int(in.decideValue(c.ZExt(v, 64), "choose:"+name))
+	in.pc = append(in.pc, c.Eq(v, c.Const(32, uint64(k))))
+	return k
 }
 
 // assume adds t to the path condition; returns false if that makes the path infeasible.
